@@ -498,7 +498,10 @@ def report(prop, tier, seed, results, wall, write=True):
             bad.append(r)
     for r, f, k in knowns:
         print(f"KNOWN-FINDING: property={prop} {r['id']} {f['kind']} {f.get('site','')} -- {k.get('what','')}")
-    for r, f, path, ncls in violations:
+    for n, (r, f, path, ncls) in enumerate(violations):
+        if n == 25:
+            print(f"   ... and {len(violations) - 25} more violated goals (replay files written; see evidence)")
+            break
         print(f"VIOLATION property={prop} replay={path}")
         print(f"   obligation {r['id']}: {f['kind']} at '{f['label']}' {f.get('site','')}: {f['detail'][:300]} ({ncls} input class(es))")
     for r in bad:
